@@ -403,9 +403,13 @@ class SimplifyUnionsWithSuperclasses(visitors.Visitor):
 
   def VisitUnionType(self, union):
     c = collections.Counter()
-    for t in set(union.type_list):
-      if isinstance(t, pytd.GENERIC_BASE_TYPE):
-        c += collections.Counter(self.hierarchy.ExpandSubClasses(str(t)))
+    # Count every class name once, even if the union holds it both as a
+    # NamedType and as a ClassType (otherwise the two absorb each other).
+    names = {
+        str(t) for t in union.type_list if isinstance(t, pytd.GENERIC_BASE_TYPE)
+    }
+    for name in names:
+      c += collections.Counter(self.hierarchy.ExpandSubClasses(name))
     # Below, c[str[t]] can be zero - that's the default for non-existent items
     # in collections.Counter. It'll happen for types that are not
     # instances of GENERIC_BASE_TYPE, like container types.
@@ -869,6 +873,9 @@ class MergeTypeParameters(TypeParameterScope):
       )
 
 
+_MAX_OPTIMIZE_ROUNDS = 10
+
+
 def Optimize(
     node,
     deps=None,
@@ -878,7 +885,36 @@ def Optimize(
     remove_mutable=False,
     can_do_lookup=True,
 ):
-  """Optimize a PYTD tree.
+  """Optimize a PYTD tree: runs the pass pipeline until nothing changes.
+
+  Later passes can create work for earlier ones (e.g. `object` in a union only
+  becomes `Any` after the union-simplifying passes have run), so a single sweep
+  is not idempotent. See _OptimizeOnce for the arguments.
+  """
+  for _ in range(_MAX_OPTIMIZE_ROUNDS):
+    new_node = _OptimizeOnce(
+        node, deps, lossy, use_abcs, max_union, remove_mutable, can_do_lookup
+    )
+    if isinstance(node, pytd.TypeDeclUnit):
+      same = pytd_utils.ASTeq(new_node, node)
+    else:
+      same = new_node == node
+    node = new_node
+    if same:
+      break
+  return node
+
+
+def _OptimizeOnce(
+    node,
+    deps=None,
+    lossy=False,
+    use_abcs=False,
+    max_union=7,
+    remove_mutable=False,
+    can_do_lookup=True,
+):
+  """Optimize a PYTD tree (one sweep over the passes).
 
   Tries to shrink a PYTD tree by applying various optimizations.
 
